@@ -7,4 +7,5 @@ let lookup (p : string) : Model.val0 -> Model.val0 =
   | "C13" -> Model.run_C13
   | "C20" -> Model.run_C20
   | "C11" -> Model.run_C11
+  | "C14" -> Model.run_C14
   | _ -> failwith ("unknown property " ^ p)
